@@ -635,6 +635,10 @@ pub fn blocks_to_markdown_and(blocks: &Blocks, sparce: bool, options: &MarkdownO
         {
             // two tables without a blank line in between would be read back as one
             result.push_str("\n");
+        } else if n > 0 && matches!(blocks[n - 1], GraphBlock::BlockQuote(_)) && !block.is_list() {
+            // text or a table directly under a quote would be read back as a lazy
+            // continuation of the quote's last paragraph
+            result.push_str("\n");
         }
         result.push_str(&block.to_markdown(options));
     }
